@@ -89,10 +89,14 @@ func buildMaterial(r *run.Rng, idx int, shape string, T0 uint32, selfIdx int) (m
 
 func buildMaterial1(r *run.Rng, idx int, shape string, T0 uint32, selfIdx int) (*Material, error) {
 	if shape == "" {
-		shape = []string{"random", "random", "deepchain", "forks", "mine", "bgsign"}[r.Intn(6)]
+		shape = []string{"random", "random", "deepchain", "forks", "mine", "bgsign", "lateconfirms"}[r.Intn(7)]
 	}
 	nDep := r.Range(3, 5)
-	if shape == "bgsign" {
+	// lateconfirms: a chain whose deepest pre-inserted block becomes stable first, so that its ancestors are stable
+	// with few confirms; then single-signature packets for those ancestors arrive back to back (each one a
+	// read-modify-write of the stored block through the write-behind queue)
+	chainLike := shape == "bgsign" || shape == "lateconfirms"
+	if chainLike {
 		nDep = r.Range(4, 5) // with 3 deputies miner + own signature already make a block stable
 	}
 	slot := []uint64{40000, 60000, 100000}[r.Intn(3)]
@@ -138,7 +142,7 @@ func buildMaterial1(r *run.Rng, idx int, shape string, T0 uint32, selfIdx int) (
 	}
 	nodes := []tn{{head, -1, 0}}
 	want := r.Range(3, 8)
-	if shape == "deepchain" || shape == "bgsign" {
+	if shape == "deepchain" || chainLike {
 		want = r.Range(5, 7)
 	}
 	hi := T0 - 10
@@ -146,7 +150,7 @@ func buildMaterial1(r *run.Rng, idx int, shape string, T0 uint32, selfIdx int) (
 	for attempt := 0; attempt < 4*want && len(mat.Tree) < want; attempt++ {
 		var p tn
 		switch {
-		case shape == "bgsign":
+		case chainLike:
 			p = nodes[len(nodes)-1]
 		case shape == "deepchain":
 			p = nodes[len(nodes)-1]
@@ -235,7 +239,7 @@ func buildMaterial1(r *run.Rng, idx int, shape string, T0 uint32, selfIdx int) (
 	// blocks inserted during setup: an ancestor-closed initial segment
 	inPre := map[int]bool{}
 	npre := r.Intn(3)
-	if shape == "bgsign" {
+	if chainLike {
 		npre = 3
 	}
 	for i := 0; i < len(mat.Tree) && len(mat.Pre) < npre; i++ {
@@ -335,6 +339,40 @@ func buildMaterial1(r *run.Rng, idx int, shape string, T0 uint32, selfIdx int) (
 	}
 	nClients := r.Range(2, 4)
 	mat.Clients = make([][]Req, nClients)
+	if shape == "lateconfirms" && len(mat.Pre) > 1 {
+		// client 0: the packet that makes the deepest pre-inserted block stable. The others: one packet per signer for
+		// each ancestor, the packets of one ancestor back to back on one client or spread over the clients
+		ti := mat.Pre[len(mat.Pre)-1]
+		first := Req{Kind: "confirms", Block: ti, Signers: signersOf(ti)}
+		first.Sigs = sign(ti, first.Signers)
+		mat.Clients[0] = append(mat.Clients[0], first)
+		started := map[int]bool{}
+		left := budget - 1
+		for _, ai := range mat.Pre[:len(mat.Pre)-1] {
+			ds := signersOf(ai)
+			ds = pick(ds, len(ds))
+			sameClient := r.Chance(1, 2)
+			cl := 1 + r.Intn(nClients-1)
+			for _, d := range ds {
+				if left == 0 {
+					break
+				}
+				left--
+				rq := Req{Kind: "confirms", Block: ai, Signers: []int{d}}
+				rq.Sigs = sign(ai, rq.Signers)
+				if !sameClient {
+					cl = r.Intn(nClients)
+				}
+				if !started[cl] && cl != 0 {
+					// the first late packet of a client waits for the stabilising packet to have a chance to finish
+					rq.PreDelay = r.Range(1500, 4000)
+					started[cl] = true
+				}
+				mat.Clients[cl] = append(mat.Clients[cl], rq)
+			}
+		}
+		reqs = nil
+	}
 	if shape == "bgsign" && len(mat.Pre) > 0 {
 		// client 0 starts with the packet that makes the deepest pre-inserted block stable: the
 		// stable block jumps over ancestors that lack confirms and the background signer starts
@@ -379,6 +417,12 @@ func buildMaterial1(r *run.Rng, idx int, shape string, T0 uint32, selfIdx int) (
 		// widen the window in which the background signer overlaps the foreground
 		mat.Yield[siteBatch] = r.Range(500, 3000)
 		mat.Yield[siteSig] = r.Range(500, 3000)
+	}
+	if shape == "lateconfirms" {
+		// keep writes pending in the write-behind queue for a while
+		mat.Yield[sitePut] = r.Range(1000, 5000)
+		mat.Yield[sitePutB] = r.Range(1000, 5000)
+		mat.Yield[siteBatch] = r.Range(500, 3000)
 	}
 	if nMine > 0 && r.Chance(1, 2) {
 		// a transaction for the miner: the founder (reward manager) calls the reward precompile
